@@ -33,6 +33,7 @@ type childLine struct {
 	Term    string         `json:"term"`
 	NonTriv bool           `json:"nontriv"`
 	Counts  map[string]int `json:"counts"`
+	Stop    bool           `json:"stop,omitempty"`
 	Direct  []directV      `json:"direct"`
 	MaxLate int64          `json:"max_late"`
 	MaxWind int64          `json:"max_wind"`
@@ -191,7 +192,7 @@ func runScenario(sc tlive.Scenario, seed uint64) childLine {
 	for attempt := 1; ; attempt++ {
 		res = tlive.Run(sc, seed+uint64(attempt))
 		sf := softFailures(sc, res)
-		if len(sf) == 0 || attempt >= 3 {
+		if res.NotQuiet != "" || len(sf) == 0 || attempt >= 3 {
 			break
 		}
 		counts["rerun-after-soft-failure"]++
@@ -252,6 +253,10 @@ func runScenario(sc tlive.Scenario, seed uint64) childLine {
 	if res.RestartOK == 1 {
 		counts["restart-ok"]++
 	}
+	if res.NotQuiet != "" {
+		l.Direct = append(l.Direct, directV{What: "the package did not wind down after the previous scenario (pending futures without a worker, or workers that never exit)", Detail: res.NotQuiet})
+		l.Stop = true
+	}
 	for _, p := range res.Panics {
 		l.Direct = append(l.Direct, directV{What: "panic in Call/Cancel", Detail: p})
 	}
@@ -267,7 +272,7 @@ func runChild(fl *hx.Flags) {
 		panic(err)
 	}
 	w := bufio.NewWriterSize(fh, 1<<20)
-	enc := json.NewEncoder(w)
+	enc := &flushEnc{json.NewEncoder(w), w}
 	defer func() { w.Flush(); fh.Close() }()
 	if fl.From != "" {
 		for _, sc := range hx.ReadCases[tlive.Scenario](fl.From) {
@@ -276,19 +281,30 @@ func runChild(fl *hx.Flags) {
 		return
 	}
 	thorough := fl.Tier == "thorough"
-	budget, maxN := 22*time.Second, 300
+	budget, maxN := 12*time.Second, 300
 	if thorough {
 		budget, maxN = 400*time.Second, 480 / *nChild * 4
 	}
 	t0 := time.Now()
+	var prev *tlive.Scenario
 	for k := 0; k < maxN && time.Since(t0) < budget; k++ {
 		idx := uint64(*childIdx) + uint64(k)*uint64(*nChild)
-		enc.Encode(runScenario(genPool(fl.Seed, idx, thorough), fl.Seed^idx))
+		sc := genPool(fl.Seed, idx, thorough)
+		l := runScenario(sc, fl.Seed^idx)
+		if l.Stop {
+			if prev != nil {
+				l.Case = *prev
+			}
+			enc.Encode(l)
+			break
+		}
+		enc.Encode(l)
+		prev = &sc
 	}
 	tlive.Quiesce(5 * time.Second)
 	time.Sleep(20 * time.Millisecond)
 	if len(tlive.LateEvents) > 0 {
-		l := childLine{Case: tlive.Scenario{Kind: "pool", Family: "late-events"}, Term: "mkPC (mkLC 10 10 [] [] 0) 0 true (-1) [] (-1) 0", Counts: map[string]int{}}
+		l := childLine{Case: *tlive.LateScenario, Term: "mkPC (mkLC 10 10 [] [] 0) 0 true (-1) [] (-1) 0", Counts: map[string]int{}}
 		l.Direct = append(l.Direct, directV{What: "callback started after its scenario was closed", Detail: tlive.LateEvents})
 		enc.Encode(l)
 	}
@@ -302,15 +318,24 @@ func spawnChild(fl *hx.Flags, i int, from string) []childLine {
 		args = append(args, "--from", from)
 	}
 	cmd := exec.Command(os.Args[0], args...)
-	cmd.Stderr = os.Stderr
-	if err := cmd.Run(); err != nil {
-		fmt.Fprintf(os.Stderr, "child %d: %v\n", i, err)
-	}
+	var errb tailBuf
+	cmd.Stderr = &errb
+	err := cmd.Run()
+	var lines []childLine
 	p := filepath.Join(dir, "live.jsonl")
-	if _, err := os.Stat(p); err != nil {
-		return nil
+	if _, e := os.Stat(p); e == nil {
+		lines = hx.ReadCases[childLine](p)
 	}
-	return hx.ReadCases[childLine](p)
+	if err != nil {
+		l := childLine{Case: tlive.Scenario{Kind: "pool", Family: "child-crash"}, Term: "mkPC (mkLC 10 10 [] [] 0) 0 true (-1) [] (-1) 0", Counts: map[string]int{"child-crash": 1}}
+		if n := len(lines); n > 0 {
+			l.Case = lines[n-1].Case
+		}
+		l.Direct = append(l.Direct, directV{What: "driver process crashed (panic outside Call/Cancel or fatal error)", Detail: fmt.Sprintf("%v: %s", err, errb.String())})
+		lines = append(lines, l)
+	}
+	os.Stderr.Write(errb.b)
+	return lines
 }
 
 func main() {
@@ -364,3 +389,23 @@ func main() {
 		"1-4 concurrent callers, idle in {5, 20, 50 ms, default 30 s}, maxWorkers 1..10 (hook VerifSetPool); thorough: all 120 orders x 4 idle values. "+
 		"observed: start of every callback vs its fireT (lateness histogram in the distribution), lock-held snapshots (worker count, tokens, heap), wind-down to zero workers, restart. non-trivial = at least 3 futures", false)
 }
+
+// tailBuf keeps the last 4 KiB written to it
+type tailBuf struct{ b []byte }
+
+func (t *tailBuf) Write(p []byte) (int, error) {
+	t.b = append(t.b, p...)
+	if len(t.b) > 4096 {
+		t.b = t.b[len(t.b)-4096:]
+	}
+	return len(p), nil
+}
+func (t *tailBuf) String() string { return string(t.b) }
+
+// flushEnc writes one JSON line and flushes, so that a crash loses nothing that was observed
+type flushEnc struct {
+	e *json.Encoder
+	w *bufio.Writer
+}
+
+func (f *flushEnc) Encode(v any) { f.e.Encode(v); f.w.Flush() }
